@@ -261,3 +261,51 @@ unsafe impl GlobalAlloc for CapAlloc {
         System.realloc(p, l, new)
     }
 }
+
+// -------- fatal-signal containment --------
+//
+// A stack overflow (runaway recursion in the subject), a failed allocation or a panic inside a
+// panic ends in abort(); none of them can be caught by catch_unwind. The SIGABRT handler parks
+// the thread for good and leaves the report (case from the breadcrumb, replay file, VIOLATION
+// line, exit 1) to the watchdog, exactly as for a blown allocation cap.
+
+/// ((signal number) << 32) | (worker id + 1) of the thread that received a fatal signal (0 = none)
+pub static CRASHED: AtomicU64 = AtomicU64::new(0);
+
+#[repr(C)]
+struct KSigaction {
+    handler: usize,
+    mask: [u64; 16],
+    flags: i32,
+    restorer: usize,
+}
+
+extern "C" {
+    fn sigaction(sig: i32, act: *const KSigaction, old: *mut KSigaction) -> i32;
+    fn pause() -> i32;
+}
+
+extern "C" fn on_fatal(sig: i32) {
+    let w = worker();
+    let w1 = if w < MAX_WORKERS { w as u64 + 1 } else { MAX_WORKERS as u64 + 1 };
+    CRASHED.store(((sig as u64) << 32) | w1, SeqCst);
+    loop {
+        unsafe {
+            pause();
+        }
+    }
+}
+
+/// SIGABRT only: std's own SIGSEGV handler (on the per-thread alternate stack) recognises a
+/// guard-page hit, prints its message and calls abort(), which lands here, still on that stack.
+#[cfg(all(target_os = "linux", target_arch = "x86_64"))]
+pub fn install_fatal_signal_handler() {
+    const SIGABRT: i32 = 6;
+    const SA_ONSTACK: i32 = 0x0800_0000;
+    let act = KSigaction { handler: on_fatal as extern "C" fn(i32) as usize, mask: [0; 16], flags: SA_ONSTACK, restorer: 0 };
+    unsafe {
+        sigaction(SIGABRT, &act, std::ptr::null_mut());
+    }
+}
+#[cfg(not(all(target_os = "linux", target_arch = "x86_64")))]
+pub fn install_fatal_signal_handler() {}
